@@ -753,6 +753,47 @@ def pair_reader(prog, res, f, rule="PAIR"):
     return n
 
 
+def reset_handshake(prog, res, rule="R-RESET-HANDSHAKE"):
+    """The request 'drop the open window' (filter.sig_accumulator_reset) is a handshake: whoever raises it
+    waits for the filter's acknowledgement before going on, and the filter acknowledges when it clears it.
+    A request that is raised and left behind (no wait) is served by whatever filter pass comes next - the
+    first pass of the next acquisition, which then drops the window it has just opened: frames are skipped
+    and every later window is shifted."""
+    n = 0
+    for f in prog.all_funcs():
+        if not f.blocks:
+            continue
+        for b, i, s in f.all_stmts():
+            for lv, op, rhs, w in ir.writes_of(s):
+                if not (lv.get("k") == "mem" and lv.get("f") == "sig_accumulator_reset"):
+                    continue
+                res.touched(f)
+                n += 1
+                if op == "=" and ir.is_const(rhs, 0):
+                    ok, w_ = paths.all_paths_pass(f, (b.id, i), "exit", lambda q: any(
+                        c.get("fn") in ("event_notify_all",) and "accumulator_reset_event" in ir.render(c) for c in ir.calls_in(q)))
+                    inst = "%s: clearing the reset request (line %s) is acknowledged on the reset event" % (f.name, s.get("line"))
+                    if ok:
+                        res.oblige(rule, inst, True, "", f.loc(s))
+                    else:
+                        res.fail(rule, inst, "%s|%s|ack" % (rule, f.name), f.loc(s),
+                                 "%s clears sig_accumulator_reset without notifying accumulator_reset_event on every path: the requester waits for ever" % f.name)
+                else:
+                    ok, w_ = paths.all_paths_pass(f, (b.id, i), "exit", lambda q: any(
+                        c.get("fn") == "event_wait" and "accumulator_reset_event" in ir.render(c) for c in ir.calls_in(q)))
+                    inst = "%s: the reset request raised at line %s is awaited before the function goes on" % (f.name, s.get("line"))
+                    if ok:
+                        res.oblige(rule, inst, True, "event_wait(accumulator_reset_event) on every path", f.loc(s))
+                    else:
+                        res.fail(rule, inst, "%s|%s|raise" % (rule, f.name), f.loc(s),
+                                 "%s raises filter.sig_accumulator_reset and can return without waiting for the filter's acknowledgement: the request stays pending, "
+                                 "the next filter pass (the first of the next acquisition when no filter thread runs now) drops the window it has just opened - "
+                                 "input frames are skipped and the following windows are shifted" % f.name)
+    if n == 0:
+        raise AnalysisBroken("no store to sig_accumulator_reset found")
+    return n
+
+
 def run(ctx, res):
     prog = ctx.program()
     res.extra["explanation"] = EXPLANATION
@@ -771,6 +812,8 @@ def run(ctx, res):
     from .. import runtimerules as RR_
     res.guard(RR_.rule_drain_after_stop, prog, res, "video_filter_thread", {"process_data"}, passes=2)
     res.require_min("R-DRAIN", 1)
+    res.guard(reset_handshake, prog, res)
+    res.require_min("R-RESET-HANDSHAKE", 2)
     res.guard(kernels, prog, res)
     n = pair_reader(prog, res, f)
     from .. import runtimerules as RR
